@@ -32,6 +32,11 @@ def mix_config(real):
     from . import sim
     from .deribit_util import ts_of
     order = real["order"]
+    if order == "D":
+        # the hourly option market alone, at interval "1min", under a MINUTELY price frame: the bars are the hours of the book
+        start, ln = real["start"], real["len"]
+        hours = [t for t in range((start // 60) * 60, start + ln + 60, 60) if start <= t < start + ln]
+        return {"s": sim.to_min(ts_of(hours[0])), "iv": 60, "len": 60 * (len(hours) - 1) + 1, "nt": 0, "mk": [{"h": True, "cb": False}]}
     return {"s": sim.to_min(ts_of(real["start"])), "iv": real["iv"], "len": real["len"], "nt": 0,
             "mk": [{"h": ch == "D", "cb": False} for ch in order]}
 
@@ -61,6 +66,8 @@ def run_mix(real, tmp):
     nm = sim.NullMarket(MarketInfo("minutely"), pd.DataFrame(index=idx, data={"v": range(len(idx))}))
     for ch in order:
         act.broker.add_market(opt if ch == "D" else nm)
+    if order == "D":
+        iv = 1
     act.set_price(prices, sim.USDC)
     act.broker.set_balance(eth, D(1000))
     if iv != 1:
@@ -324,4 +331,6 @@ def cases(rnd, quick):
     for _ in range(4 if quick else 40):
         out.append({"kind": "mix", "order": rnd.choice(["MD", "DM"]), "start": rnd.choice([50, 55, 58, 60]), "len": rnd.randint(66, 80),
                     "iv": rnd.choice([1, 1, 5]), "ninstr": rnd.choice([45, 70])})
+    for _ in range(2 if quick else 12):      # the option market alone under a minutely price frame (bars = hours, prices every minute)
+        out.append({"kind": "mix", "order": "D", "start": rnd.choice([0, 60]), "len": rnd.choice([121, 181]), "iv": 1, "ninstr": 1})
     return out
